@@ -180,7 +180,8 @@ def check_memo_method(ctx: Ctx, mname: str, info: dict) -> None:
         ctx.ob("1.2-lookup-key", con, key <= {"K:U", "U"} and bool(key), f"the lookup key is {fmt(key)}; it must be the (hashed) physical point", node=c)
     stores = rules.calls_named(func, "store")
     stores = [c for c in stores if fw.tags(c.func.value) == {"db"}] if stores else stores
-    ctx.need(stores, f"{mname}: no database.store call")
+    if not stores:
+        ctx.ob("1.2-store-value", con, False, f"{mname} never records what it computed in the database: the value is recomputed at each request and the history lacks the point", node=func, stmt="computed value stored")
     for c in stores:
         key = tags(c.args[0]) if c.args else UNKNOWN
         ctx.ob("1.2-store-key", con, key <= {"K:U", "U"} and bool(key), f"the value is stored under a key tagged {fmt(key)}; it must be the (hashed) physical point", node=c)
@@ -636,6 +637,10 @@ def run(ctx: Ctx) -> None:
         "only Database's own editing methods may modify the point -> values mapping",
     )
     check_linear_normalize(ctx)
+    # what is recorded under a point is that point's own array: the wrapped functions must not hand out a reusable buffer
+    from gv.props.shared import check_fresh_results
+
+    check_fresh_results(ctx, "1.10-fresh-result")
     ctx.floor("1.1-seq", 10)
     ctx.floor("1.2-store-value", 4)
     ctx.floor("1.2-return", 4)
